@@ -6,6 +6,7 @@ import (
 	"fmt"
 	"os"
 	"os/exec"
+	"path/filepath"
 	"sort"
 	"strings"
 	"time"
@@ -336,6 +337,10 @@ func c02Find(c *Ctx, cs *C02Case, r *Rng, out *CaseOut, wantSig string) []c02Fai
 			}
 		}
 	}
+	if !base.Intact() && !seen["diverge|returned-bytes|"] && (wantSig == "" || wantSig == "diverge|returned-bytes|") {
+		fails = append(fails, c02Fail{dim: "returned-bytes", sig: "diverge|returned-bytes|", a: canon, b: canon,
+			detail: fmt.Sprintf("the []byte returned by Render (%q) was overwritten by later renders: it now reads %q", clip(base.Out), clip(string(base.bytes)))})
+	}
 	return fails
 }
 
@@ -474,9 +479,46 @@ func c02Violation(c *Ctx, cs *C02Case, f c02Fail, idx int) *Violation {
 func (ck c02) Replay(c *Ctx, v *Violation) *Violation {
 	scrubAddrs, noAddr = false, false
 	cliPath = os.Getenv("VERIF_LIQUID_CLI")
+	var ea struct {
+		Dimension string `json:"dimension"`
+		Index     int    `json:"index"`
+		Shards    int    `json:"shards"`
+		Tier      string `json:"tier"`
+	}
+	if json.Unmarshal(v.Case, &ea) == nil && ea.Dimension == "earlier-activity" {
+		// this (fresh) process first runs the shard's earlier cases, then the case;
+		// a child process runs the case alone; their event logs must agree.
+		c.Tier = ea.Tier
+		var d uint64
+		for i := ea.Index % ea.Shards; i <= ea.Index; i += ea.Shards {
+			d = ck.RunCase(c, i).Digest
+		}
+		out := filepath.Join(c.Scratch, "ea-child.json")
+		cmd := exec.Command(os.Args[0], "shard", "-prop", "C02", "-tier", ea.Tier, "-seed", fmt.Sprint(c.Seed), "-only", fmt.Sprint(ea.Index), "-sites", sitesPath, "-scratch", c.Scratch, "-out", out)
+		cmd.Env = append(os.Environ(), "TZ=UTC")
+		if err := cmd.Run(); err != nil {
+			fatal("replay child: %v", err)
+		}
+		var r ShardResult
+		b, _ := os.ReadFile(out)
+		json.Unmarshal(b, &r)
+		if r.Digests[fmt.Sprint(ea.Index)] != d {
+			return &Violation{Property: "C02", Clause: "same-result", Signature: v.Signature,
+				Detail: fmt.Sprintf("case %d: event log after the shard's %d earlier case(s) differs from the event log in a fresh process", ea.Index, ea.Index/ea.Shards)}
+		}
+		return nil
+	}
 	var cs C02Case
 	if err := json.Unmarshal(v.Case, &cs); err != nil {
 		fatal("replay: %v", err)
+	}
+	if cs.Dim == "returned-bytes" || cs.Dim == "fresh-process" {
+		o := &CaseOut{}
+		for _, f := range c02Find(nil, &cs, NewRng(1), o, v.Signature) {
+			fmt.Printf("replay: template %q: %s\n", cs.Source, f.detail)
+			return &Violation{Property: "C02", Clause: "same-result", Detail: f.detail, Signature: f.sig}
+		}
+		return nil
 	}
 	x := newC02Run(&cs, cliPath)
 	tries := 1
